@@ -11,7 +11,14 @@ SEAM_OPS = {"sc.foreign_ctx"}
 SRC_KINDS = ["voltage_source", "current_source", "ac_voltage_source", "ac_current_source", "rect_voltage_source",
              "rect_current_source", "complex_voltage_source", "complex_current_source"]
 PAS_KINDS = ["resistor", "conductance", "impedance", "capacitor", "inductance"]
-DECADES = [1e-6, 1e-3, 0.1, 1, 4.7, 10, 220, 1e3, 4.7e4, 1e6, 3.14159265, 0.123456789, 1234.56789]
+DECADES = [1e-6, 1e-3, 0.1, 1, 4.7, 10, 220, 1e3, 4.7e4, 1e6, 3.14159265, 0.123456789, 1234.56789, 1e-10, 5e-13, 2.5e9]
+
+
+def _cx(r):
+    """complex values over many decades, including parts that are tiny relative to 1 (not rounding residue!)"""
+    if r.random() < 0.2:
+        return r.choice([complex(3e-10, -4e-10), complex(10, 5e-10), complex(2e-10, -2), complex(-7e-12, 1e3), complex(1e-9, 1e-9)])
+    return G.cx(r)
 
 
 def _kw(r, kind, name, flags=True):
@@ -31,9 +38,9 @@ def _kw(r, kind, name, flags=True):
         if flags and kind.startswith("ac_") and r.random() < 0.25:
             kw["sin"] = r.random() < 0.8
     elif kind == "complex_voltage_source":
-        kw["V"] = G.cx(r) * r.choice([1, 10])
+        kw["V"] = _cx(r) * r.choice([1, 10])
     elif kind == "complex_current_source":
-        kw["I"] = G.cx(r)
+        kw["I"] = _cx(r)
         if r.random() < 0.85:
             kw["reverse"] = True          # the unreversed symbol does not translate at all (outside C15's domain)
     elif kind == "resistor":
@@ -41,7 +48,7 @@ def _kw(r, kind, name, flags=True):
     elif kind == "conductance":
         kw["G"] = 1 / r.choice(DECADES)
     elif kind == "impedance":
-        kw["Z"] = G.cx(r) * r.choice([1, 10, 1e3])
+        kw["Z"] = _cx(r) * r.choice([1, 10, 1e3])
     elif kind == "capacitor":
         kw["C"] = r.choice(G.C_VALUES)
     elif kind == "inductance":
